@@ -379,7 +379,14 @@ def scanStep (p : Prog) (rules : List RuleIR) (st : Scan) : Except (List Slot) S
   let finish (seg : List Slot) (pos : Nat) (hw : Option Nat) (hp : Bool) (fresh : Nat) : Except (List Slot) Scan :=
     if pos ≥ seg.length then .ok { seg, pos := seg.length, hw, hp, lc := st.lc, fresh }
     else if uidAt seg pos == hw ∨ hp then .ok { seg, pos, hw := uidAt seg (pos + 1), hp := false, lc := maxRuleLoop, fresh }
-    else if st.lc ≤ 1 then .error seg
+    else if st.lc ≤ 1 then
+      -- MaxRuleLoop iterations without reaching the mark: the scan is moved to the mark
+      match hw with
+      | none => .ok { seg, pos := seg.length, hw, hp, lc := maxRuleLoop, fresh }
+      | some u =>
+        let j := seg.findIdx (·.uid == u)
+        if j ≥ seg.length then .error seg      -- the marked slot is gone: not a state the engine can be in
+        else .ok { seg, pos := j, hw := uidAt seg (j + 1), hp := false, lc := maxRuleLoop, fresh }
     else .ok { seg, pos, hw, hp, lc := st.lc - 1, fresh }
   match fired with
   | .error _ => .error st.seg
@@ -585,7 +592,14 @@ theorem scanStep_no_match (p : Prog) (rules : List RuleIR) (st : Scan)
     · left; simp only [h2, if_true]; exact ⟨_, rfl, rfl⟩
     · simp only [h2, if_false]
       by_cases h3 : st.lc ≤ 1
-      · right; simp only [h3, if_true]
+      · simp only [h3, if_true]
+        cases hhw : st.hw with
+        | none => left; exact ⟨_, rfl, rfl⟩
+        | some u =>
+          simp only
+          by_cases h4 : List.findIdx (fun x => x.uid == u) st.seg ≥ st.seg.length
+          · right; simp only [h4, if_true]
+          · left; simp only [h4, if_false]; exact ⟨_, rfl, rfl⟩
       · left; simp only [h3, if_false]; exact ⟨_, rfl, rfl⟩
 
 /-- A pass none of whose rules matches anywhere is the identity on the slot stream, for every text, whatever the loop
